@@ -33,7 +33,10 @@ RULE = ('references: trees of 1-3 levels with 2-7 leaves (single-child '
         'levels in different lineages (a child named like a later-sorted node '
         'of the parent level, or of a level further up); 300-600 non-reference '
         'gene columns prepended / interleaved so that markers sit beyond query '
-        'column 255 (thorough: one query beyond 65535). non-trivial = some '
+        'column 255 (thorough: one query beyond 65535); mapping runs under option '
+        'combinations: per-level bootstrap_factor_lookup (with the None key, '
+        'written against the reference taxonomy) x drop_level x flatten x '
+        'n_runners_up. non-trivial = some '
         '(centroid, node) with a real choice where the guard holds; distinct '
         'by canonical JSON of the case')
 TRUSTED = ['"correlation 1" is checked to 1e-9; "perfectly correlated" in '
@@ -136,7 +139,25 @@ def gen_case(rng, i, big_query=0):
             'n_processors': rng.randint(1, 3),
             'chunk_size': rng.randint(1, 5),
             'normalization': 'log2CPM', 'flatten': False,
-            'drop_level': None, 'encoding': 'dense'})
+            'drop_level': None, 'encoding': 'dense',
+            'bootstrap_factor_lookup': None})
+    # option combinations: a per-level factor table written against the
+    # taxonomy of the REFERENCE (every non-leaf level + 'None', sometimes the
+    # leaf level too), alone and together with drop_level / flatten
+    hh = tree['hierarchy']
+    for ri, run in enumerate(runs):
+        if (i + ri) % 2 == 0:
+            keys = ['None'] + hh[:-1] + (hh[-1:] if rng.random() < 0.3 else [])
+            run['bootstrap_factor_lookup'] = [
+                [k, rng.choice([1.0, 0.5, rng.uniform(0.3, 1.0)])]
+                for k in keys]
+        if len(hh) >= 2 and (i + 2 * ri) % 3 == 0:
+            if rng.random() < 0.6:
+                run['drop_level'] = rng.choice(hh[:-1])
+            else:
+                run['flatten'] = True
+            if rng.random() < 0.3 and run['drop_level'] is not None:
+                run['flatten'] = True
     return {'kind': 'chain', 'tree': tree, 'genes': genes, 'X': X,
             'labels': labels, 'query_genes': qgenes, 'runs': runs,
             'collide': collide, 'wide_query': wide,
@@ -313,14 +334,42 @@ def check_case(ctx, case):
         for ri, opts in enumerate(case['runs']):
             sub = d / ('run%d' % ri)
             sub.mkdir()
+            mpath = d / 'markers.json'
+            if opts.get('drop_level') is not None:
+                # the marker stage is run with the same drop_level (its table
+                # then discriminates the grandchildren that become children)
+                try:
+                    with pipeline.quiet():
+                        lk_r = create_marker_gene_lookup_from_ref_list(
+                            reference_marker_path_list=[d / 'refmarkers.h5'],
+                            query_gene_names=list(case['query_genes']),
+                            n_per_utility=case['n_per_utility'],
+                            n_per_utility_override=None, n_processors=2,
+                            behemoth_cutoff=1000, tmp_dir=d,
+                            drop_level=opts['drop_level'])
+                except Exception as e:   # noqa
+                    violation('stage/query-markers-fails/%s'
+                              % type(e).__name__,
+                              'marker selection with drop_level=%r: %r'
+                              % (opts['drop_level'], e), opts=opts)
+                    return
+                mpath = d / ('markers_run%d.json' % ri)
+                mpath.write_text(json.dumps(lk_r))
             cfg = pipeline.mapping_config(
-                qpath, d / 'stats.h5', d / 'markers.json', sub, sub,
+                qpath, d / 'stats.h5', mpath, sub, sub,
                 n_processors=opts['n_processors'],
                 chunk_size=opts['chunk_size'],
                 bootstrap_factor=opts['bootstrap_factor'],
                 bootstrap_iteration=opts['bootstrap_iteration'],
                 rng_seed=opts['rng_seed'],
-                n_runners_up=opts['n_runners_up'], normalization='log2CPM')
+                n_runners_up=opts['n_runners_up'], normalization='log2CPM',
+                flatten=opts.get('flatten', False),
+                drop_level=opts.get('drop_level'),
+                bootstrap_factor_lookup=opts.get('bootstrap_factor_lookup'))
+            ctx.count('run:%s%s%s' % (
+                'lookup' if opts.get('bootstrap_factor_lookup') else 'factor',
+                '+drop' if opts.get('drop_level') else '',
+                '+flatten' if opts.get('flatten') else ''))
             results.append((opts, eu.run_traced_mapping(sub, cfg)))
     n_guard = 0
     for opts, res in results:
@@ -417,6 +466,32 @@ def run(ctx):
                       found_input=False)
     # name tables linking the stage files (C18 first sentence)
     stagefiles_util.run_c18(ctx)
+    # ... and the same stream aimed at the multi-file reference route: >= 2
+    # h5ad files that share a base name in different directories, copied to
+    # scratch first (copy_data_over=True).  The random stream reaches that
+    # combination in ~12% of its cases only.
+    _names_aimed_multifile(ctx, 4 if ctx.tier == 'quick' else 24)
+
+
+def _names_aimed_multifile(ctx, n):
+    from props import c09
+    plain = c09.RunConfig
+
+    class Aimed(plain):
+        def __init__(self, rng, ref, force=None):
+            f = dict(force or {})
+            if len(ref.names) > 1:
+                f.setdefault('files', c09.split_files(
+                    rng, len(ref.names), rng.choice([2, 2, 3, 4])))
+            f.setdefault('copy_over', True)
+            f.setdefault('layout', 'same_base')
+            plain.__init__(self, rng, ref, f)
+
+    c09.RunConfig = Aimed
+    try:
+        stagefiles_util.run_c18(ctx, n=n)
+    finally:
+        c09.RunConfig = plain
 
 
 def replay(ctx, data, from_corpus=False):
